@@ -38,6 +38,12 @@ def operator_op(case, rng):
                 f.write((n.name if st == "ok" else "someone-else") + "\n")
         case.marker_state[n.id] = st
         return f"marker of {n.name} -> {st}"
+    if r < 0.43:
+        # explicit request to initialise a node (what `alpenhorn node init` files)
+        bad = [x for x in nodes if case.marker_state.get(x.id) != "ok"]
+        n = rng.choice(bad) if bad and rng.random() < 0.4 else rng.choice(nodes)
+        db.ArchiveFileImportRequest.create(node=n, path="ALPENHORN_NODE")
+        return f"init request for {n.name}"
     if r < 0.6:
         rows = list(db.ArchiveFileCopy.select())
         if rows:
@@ -49,6 +55,10 @@ def operator_op(case, rng):
     if r < 0.8:
         f = rng.choice(case.files)
         src = rng.choice(case.nodes)
+        good = [c for c in db.ArchiveFileCopy.select().where(db.ArchiveFileCopy.has_file == "Y")]
+        if good and rng.random() < 0.7:        # mostly requests that can proceed: a healthy source
+            c = rng.choice(good)
+            f, src = db.ArchiveFile.get(id=c.file_id), db.StorageNode.get(id=c.node_id)
         g = rng.choice([g for g in case.groups if g.id != src.group_id] or case.groups)
         db.ArchiveFileCopyRequest.create(file=f, node_from=src, group_to=g)
         return f"sync request file {f.id} {src.name}->{g.name}"
@@ -68,75 +78,128 @@ def operator_op(case, rng):
 
 def run_history(ctx, e, rng, nsteps, on_step=None):
     """returns (case, problems07, problems08, log)"""
+    import pathlib
     case = dharness.DWorld(e, rng)
     db = case.w.db
     case.precompleted = set(r.id for r in db.ArchiveFileCopyRequest.select().where(db.ArchiveFileCopyRequest.completed == 1))
     case.set_tools(rng.choice(["rsync-only", "both", "none"]), "ok")
     p7, p8, log = [], [], []
+
+    def judge(host, bt, bc, desc):
+        allow_init = None
+        if desc[0] == "task":
+            m = re.match(r'Init Node "(\S+)"', desc[2])
+            if m:
+                nd = db.StorageNode.get(name=m.group(1))
+                # initialising is licensed by a request *for that node* that was pending when the pass queued the task
+                if nd.id in case.initq.get(host, set()):
+                    allow_init = nd.id
+        for p in case.attribute(host, bt, bc, allow_init=allow_init):
+            p7.append((p, list(log[-6:])))
+        if allow_init is not None and case.usable_now(host) >= {allow_init}:
+            case.marker_state[allow_init] = "ok"
+        for p in case.invariants():
+            p8.append((p, list(log[-6:])))
+        # "a copy recorded removed by the daemon is gone from disk": rows this step turned into has_file='N'
+        for cid, row in case.copies().items():
+            old = bc.get(cid)
+            if old is not None and old[2] != "N" and row[2] == "N":
+                nd = db.StorageNode.get(id=row[1])
+                f = db.ArchiveFile.get(id=row[0])
+                if case.w.file_on(nd, f) is not None:
+                    p8.append((f"copy {cid} of {f.name} on {nd.name} was recorded removed (has_file {old[2]} -> N) by {desc} "
+                               f"but the file is still on disk", list(log[-6:])))
+        if on_step:
+            on_step(case, desc)
+
+    def do_iterate(host):
+        bt, bc = case.all_trees(), case.copies()
+        e.set_host(host)
+        try:
+            pend = case.iterate(host)
+        except Exception as ex:  # noqa
+            p8.append(f"update pass on {host} raised {type(ex).__name__}: {ex}")
+            log.append(f"iterate {host}: RAISED {ex}")
+            return
+        log.append(f"iterate {host}: usable={sorted(case.view[host])} queued={[t[1] for t in pend][:6]}")
+        judge(host, bt, bc, ("iterate", host))
+
+    def do_task(host):
+        """run one queued task of `host`; returns False when nothing was runnable"""
+        bt, bc = case.all_trees(), case.copies()
+        e.set_host(host)
+        # an I/O error from the file system when the task removes a file (EIO once), in one task out of eight
+        real_unlink = pathlib.Path.unlink
+        eio = rng.random() < 0.125
+        fired = []
+
+        def failing_unlink(self_, *a, **k):
+            if not fired and "/.alpentemp" not in str(self_) and not self_.name.startswith("."):
+                fired.append(str(self_))
+                raise OSError(5, "Input/output error (injected)", str(self_))
+            return real_unlink(self_, *a, **k)
+        if eio:
+            pathlib.Path.unlink = failing_unlink
+        try:
+            res = case.run_task(host)
+        except Exception as ex:  # noqa
+            if not fired:     # an exception caused by the injected I/O error stops the daemon like a crash would (C09's subject)
+                p8.append(f"a task on {host} raised {type(ex).__name__}: {ex}")
+            log.append(f"task {host}: RAISED {ex}")
+            return True
+        finally:
+            pathlib.Path.unlink = real_unlink
+        if res is None:
+            return False
+        log.append(f"task {host}: {res[1]}" + (f" [unlink of {os.path.basename(fired[0])} failed with EIO]" if fired else ""))
+        case.note_task(host, res[1])
+        m = re.match(r"Import (\S+) on (\S+)", res[1])
+        if m:
+            # importing a file that differs from its existing registration is the operator telling the index something
+            # the daemon has not checked: tracked (DESIGN §4 C08)
+            try:
+                acq, fname = m.group(1).split("/", 1)
+                f = db.ArchiveFile.select().join(db.ArchiveAcq).where(db.ArchiveAcq.name == acq, db.ArchiveFile.name == fname).get()
+                nd = db.StorageNode.get(name=m.group(2))
+                data = case.w.file_on(nd, f)
+                if data is not None and (f.size_b != len(data) or f.md5sum != dharness.worldmod.md5(data)):
+                    case.tracked.add((nd.id, f.id))
+            except Exception:
+                pass
+        m = re.match(r"AFCR#(\d+):", res[1])
+        if m:
+            rq = db.ArchiveFileCopyRequest.get_or_none(id=int(m.group(1)))
+            if rq is not None and rq.completed:
+                dest = db.StorageNode.get_or_none(db.StorageNode.group == rq.group_to_id)
+                if dest is not None:
+                    src_tracked = (rq.node_from_id, rq.file_id) in case.tracked
+                    sc = db.ArchiveFileCopy.get_or_none(file=rq.file_id, node=rq.node_from_id)
+                    if src_tracked or sc is None or sc.has_file != "Y":
+                        case.tracked.add((dest.id, rq.file_id))
+                    else:
+                        case.tracked.discard((dest.id, rq.file_id))
+        judge(host, bt, bc, ("task", host, res[1]))
+        return True
+
     for si in range(nsteps):
         r = rng.random()
         host = rng.choice(case.hosts)
-        bt, bc = case.all_trees(), case.copies()
-        if r < 0.3:
+        if r < 0.28:
             log.append("op: " + operator_op(case, rng))
-            continue
-        if r < 0.55:
-            e.set_host(host)
-            try:
-                pend = case.iterate(host)
-            except Exception as ex:  # noqa
-                p8.append(f"update pass on {host} raised {type(ex).__name__}: {ex}")
-                log.append(f"iterate {host}: RAISED {ex}")
-                continue
-            log.append(f"iterate {host}: usable={sorted(case.view[host])} queued={[t[1] for t in pend][:6]}")
-            desc = ("iterate", host)
+        elif r < 0.48:
+            do_iterate(host)
+        elif r < 0.70:
+            do_task(host)
         else:
-            e.set_host(host)
-            # taint bookkeeping for a pull about to run
-            q = case.daemons[host].queue
-            nxt = None
-            try:
-                res = case.run_task(host)
-            except Exception as ex:  # noqa
-                p8.append(f"a task on {host} raised {type(ex).__name__}: {ex}")
-                log.append(f"task {host}: RAISED {ex}")
-                continue
-            if res is None:
-                continue
-            log.append(f"task {host}: {res[1]}")
-            case.note_task(host, res[1])
-            m = re.match(r"Import (\S+) on (\S+)", res[1])
-            if m:
-                # importing a file that differs from its existing registration is the operator telling the index something
-                # the daemon has not checked: tracked (DESIGN §5 C08)
-                try:
-                    acq, fname = m.group(1).split("/", 1)
-                    f = db.ArchiveFile.select().join(db.ArchiveAcq).where(db.ArchiveAcq.name == acq, db.ArchiveFile.name == fname).get()
-                    nd = db.StorageNode.get(name=m.group(2))
-                    data = case.w.file_on(nd, f)
-                    if data is not None and (f.size_b != len(data) or f.md5sum != dharness.worldmod.md5(data)):
-                        case.tracked.add((nd.id, f.id))
-                except Exception:
-                    pass
-            m = re.match(r"AFCR#(\d+):", res[1])
-            if m:
-                rq = db.ArchiveFileCopyRequest.get_or_none(id=int(m.group(1)))
-                if rq is not None and rq.completed:
-                    dest = db.StorageNode.get_or_none(db.StorageNode.group == rq.group_to_id)
-                    if dest is not None:
-                        src_tracked = (rq.node_from_id, rq.file_id) in case.tracked
-                        sc = db.ArchiveFileCopy.get_or_none(file=rq.file_id, node=rq.node_from_id)
-                        if src_tracked or sc is None or sc.has_file != "Y":
-                            case.tracked.add((dest.id, rq.file_id))
-                        else:
-                            case.tracked.discard((dest.id, rq.file_id))
-            desc = ("task", host, res[1])
-        for p in case.attribute(host, bt, bc):
-            p7.append((p, list(log[-6:])))
-        for p in case.invariants():
-            p8.append((p, list(log[-6:])))
-        if on_step:
-            on_step(case, desc)
+            # a whole pass of this host's daemon: update, then every queued task one by one (each judged separately)
+            do_iterate(host)
+            for _ in range(40):
+                if not do_task(host):
+                    if case.daemons[host].queue.deferred_size:
+                        q = case.daemons[host].queue
+                        q._deferrals = [(0, *d[1:]) for d in q._deferrals]
+                        continue
+                    break
     os.environ["PATH"] = "/usr/local/bin:/usr/bin:/bin"
     return case, p7, p8, log
 
@@ -188,7 +251,7 @@ def compare_iterate(ctx, e, rng, n):
 def run(ctx):
     ok = common.proof_stage(ctx, MODULE)
     rng = ctx.rng
-    nh = 45 if ctx.quick() else 1500
+    nh = 100 if ctx.quick() else 2500
     with envmod.Env() as e:
         compare_iterate(ctx, e, rng, 60 if ctx.quick() else 1500)
         for i in range(nh):
